@@ -9,7 +9,7 @@ search.py:50-89).  Ghost fields (prefix g_) exist only in specifications.
 def declare(reg):
     reg.enum("asimap/client.py", "ClientState")
     reg.record("SearchArgs", {
-        "msg_set": "list[MsgElt]", "keyword": "str", "n": "int", "string": "str", "header": "str", "search_key": "ref:IMAPSearch",
+        "msg_set": "list[MsgElt]", "keyword": "str", "n": "int", "string": "str", "header": "str", "search_key": "ref:IMAPSearch", "date": "int",
     })
     # ghost view of the sqlite file: g_uid_vv is the *committed* value of user_server.uid_vv (as stored text)
     # g_c_*: what is durable in the sqlite file; g_p_*: what the open transaction has done so far (A-DB)
@@ -160,6 +160,7 @@ def declare(reg):
             "_msg_size": "opt[int]",
             "_sequences": "opt[list[str]]",
             "_msg": "opt[opaque:EmailMessage]",
+            "_internal_date": "opt[opaque:datetime]",
         },
         path="asimap/search.py",
     )
